@@ -45,6 +45,8 @@ theorem C12_hash_collision_witness (sha : Bytes → Str) :
   simp only [hashValue, h, h']
   rfl
 
+/-- **hash_inj_full is false** (F3): refuted by `(1, 23)` / `(12, 3)` with a length-64 digest that is
+collision-free on the single byte string `"123"` both values hash. -/
 theorem C12_hash_inj_full_false : ¬ C12_hash_inj_full := by
   intro hfull
   -- any length-64 `sha` will do: both values hash the single byte string "123"
@@ -275,6 +277,8 @@ def C12_sig_pythonnode_full : Prop :=
         i₁.argName = i₂.argName ∧ PyEqHL i₁.treePath i₂.treePath ∧
         i₁.taskName = i₂.taskName ∧ i₁.taskPath = i₂.taskPath)
 
+/-- **sig_iff (PythonNode) at full strength is false** (F3): the nodes at tree positions `(1, 23)` and
+`(12, 3)` of one argument of one task share a signature. -/
 theorem C12_sig_pythonnode_full_false : ¬ C12_sig_pythonnode_full := by
   intro hfull
   let i₁ : NodeInfo := ⟨"123".toList, [.int 1, .int 23], "123".toList, none⟩
@@ -347,6 +351,8 @@ theorem C12_stale_after_restore (p : Str) (mh : Int) (c₁ c₂ : Bytes) :
       = some (sha c₁) := by
   simp [stateOfFile_some, Memo.get_empty, Memo.get_insert]
 
+/-- **state_content_full is false** (F4): after one `state()` of a file with bytes `[1]`, new bytes `[2]`
+under the same (path, mtime) still give the digest of `[1]`. -/
 theorem C12_state_content_full_false : ¬ C12_state_content_full := by
   intro hfull
   let sha : Bytes → Str := fun b => b.map (fun x => Char.ofNat x.toNat)
